@@ -87,6 +87,7 @@ def run(ctx):
         scrubtie.run_correspondence(ctx, 2000 if ctx.quick else 30000)
     stmts = pool.statements(ctx, n_gen=400 if ctx.quick else 5000)
     stmts = pool.scripts() + stmts
+    shared_subject_battery(ctx, R)
     for st in stmts:
         for rnd in range(1 if ctx.quick else 3):
             dialect = st["dialect"]
@@ -140,6 +141,41 @@ def run(ctx):
                 continue  # only parse() takes fmap
             for fm in fms:
                 check_fmap(ctx, R, st, dialect, ac, nkw, nrm, fm)
+
+
+# statements in which the library puts ONE node under several parents (the subject of a simple CASE is compared with
+# every WHEN value): a rename must be applied to what is written, once per written occurrence, however the map looks
+SHARED_SUBJECT = [
+    "select case a + b when 1 then 'x' when 2 then 'y' when 3 then 'z' end from t",
+    "select case f(a) when 1 then 'x' when g(2) then 'y' else 'w' end from t",
+    "select case a * b when c * d then 1 when e then 2 end as k, a * b from t where case f(x) when 1 then true when 2 then false end",
+    "select case when a + b = 1 then 'x' when a + b = 2 then 'y' end from t",
+    "select case a || b when 'p' then 1 when 'q' then 2 when 'r' then 3 when 's' then 4 end from t order by case f(a) when 1 then 2 when 3 then 4 end",
+    "select f(a), f(a), f(f(a)) from t where f(a) = f(a)",
+    "select case -a when 1 then 2 when 3 then 4 end, case not a when true then 1 when false then 2 end from t",
+]
+
+
+def shared_subject_battery(ctx, R):
+    m = R.m
+    for sql in SHARED_SUBJECT:
+        st = {"sql": sql, "dialect": "common", "origin": "shared-subject"}
+        for nkw in ({}, {"null": None}):
+            nrm = R.parse_raw(sql, "common", calls=m.normal_op, **nkw)
+            if nrm[0] != "ok":
+                continue
+            names = sorted(op_names(nrm[1], set()))
+            fms = []
+            for i, a in enumerate(names):
+                fms.append({a: a + "_renamed"})
+                for b in names[i + 1:]:
+                    fms.append({a: b, b: a})  # swap
+                    fms.append({a: b, b: "third"})  # chain
+                    fms.append({b: a, a: "third"})
+            if len(names) >= 3:
+                fms.append({names[k]: names[(k + 1) % len(names)] for k in range(len(names))})  # rotation
+            for fm in fms:
+                check_fmap(ctx, R, st, "common", None, nkw, nrm, fm)
 
 
 def check_fmap(ctx, R, st, dialect, ac, nkw, nrm, fm):
